@@ -199,3 +199,104 @@ func lastIsError(t types.Type) bool {
 	}
 	return isErrorType(t)
 }
+
+// c18NumLen: a bound on the length of a number token does not refuse a number the writer can print.
+// strconv.FormatFloat(f, 'g', -1, 64) prints at most 24 characters (-2.2250738585072014e-308) and
+// FormatInt at most 20; a comparison of the token's length with a constant that guards the making of an
+// error must leave the lengths 1..24 alone. Today the reader has no such bound: the rule then has nothing
+// to check (its positive control is the mutant in mutants/C18.json).
+func c18NumLen(c *Ctx, r *Report) {
+	const rule = "C18.NUMLEN"
+	r.rule(rule, "lengths of number tokens for which the value reader makes an error (comparisons of the token buffer's length with constants) ∩ [1,24] (the lengths strconv.FormatFloat 'g' -1 and FormatInt can print) = ∅")
+	rn, rv := c.fn("(*parser).readNumberToken"), c.fn("(*parser).readValue")
+	if rn == nil || rv == nil {
+		r.undecided(rule, "anchors (*parser).readNumberToken / (*parser).readValue", token.NoPos, "not found")
+		return
+	}
+	r.fnSeen(fnName(rn), fnName(rv))
+	fromNumTok := func(v ssa.Value) bool {
+		for d := 0; d < 6 && v != nil; d++ {
+			switch x := v.(type) {
+			case *ssa.Extract:
+				if call, ok := x.Tuple.(*ssa.Call); ok {
+					return call.Call.StaticCallee() == rn
+				}
+				return false
+			case *ssa.Phi:
+				for _, e := range x.Edges {
+					if ex, ok := e.(*ssa.Extract); ok {
+						if call, ok := ex.Tuple.(*ssa.Call); ok && call.Call.StaticCallee() == rn {
+							return true
+						}
+					}
+				}
+				return false
+			case *ssa.Convert:
+				v = x.X
+			case *ssa.Slice:
+				v = x.X
+			default:
+				return false
+			}
+		}
+		return false
+	}
+	isLen := func(fn *ssa.Function, v ssa.Value) bool {
+		call, ok := v.(*ssa.Call)
+		if !ok {
+			return false
+		}
+		if b, isB := call.Call.Value.(*ssa.Builtin); isB && b.Name() == "len" && len(call.Call.Args) == 1 {
+			return fn == rn || fromNumTok(call.Call.Args[0])
+		}
+		if f := call.Call.StaticCallee(); f != nil && f.Name() == "Len" && f.Pkg != nil && (f.Pkg.Pkg.Path() == "bytes" || f.Pkg.Pkg.Path() == "strings") {
+			return fn == rn
+		}
+		return false
+	}
+	u := ival{0, 1 << 20}
+	written := iset{{1, 24}}
+	var reject iset
+	n := 0
+	at := token.NoPos
+	for _, fn := range []*ssa.Function{rn, rv} {
+		for _, b := range fn.Blocks {
+			for _, in := range b.Instrs {
+				call, ok := in.(*ssa.Call)
+				if !ok {
+					continue
+				}
+				cal := call.Call.StaticCallee()
+				if cal == nil || isScannerFn(c, cal) || !lastIsError(call.Type()) {
+					continue
+				}
+				for _, g := range blockGuards(b) {
+					g = normGuard(g)
+					v, _, _, ok := intCmp(g.cond)
+					if !ok || !isLen(fn, v) {
+						continue
+					}
+					n++
+					s := reachSet(b, v, u)
+					if len(s) == 1 && s[0] == u {
+						continue
+					}
+					if len(s.intersect(written)) > 0 && at == token.NoPos {
+						at = call.Pos()
+					}
+					reject = append(reject, s...)
+				}
+			}
+		}
+	}
+	reject = reject.norm()
+	bad := reject.intersect(written)
+	r.Tables[rule+" token lengths refused by the reader"] = reject.String()
+	r.Tables[rule+" length comparisons guarding an error"] = fmt.Sprint(n)
+	pos := rn.Pos()
+	if at != token.NoPos {
+		pos = at
+	}
+	r.check(rule, "no number the writer can print is refused for its length", pos, len(bad) == 0,
+		fmt.Sprintf("number tokens of length %s are refused, and the writer prints numbers of up to 24 characters (-2.2250738585072014e-308): such a value does not parse back from its own text", bad))
+}
